@@ -47,9 +47,20 @@ Theorem C05_array_roundtrip : forall len d, (length d <= len)%nat ->
   skipn (length d) (to_array len d) = repeat 0 (len - length d).
 Proof. exact array_roundtrip. Qed.
 
-(* split: the decoder state machine is modelled ([run_split]) and checked against every emitted
-   instance; its general round-trip theorem is not proved here (the statement is kept visible):
-   forall chunks perm key op, NoDup perm -> run_split (enc_split chunks perm key op) = Some (concat chunks) *)
+(* split: n chunks visited through a permutation of n+2 state numbers, the switch cases in any
+   (shuffled) order, the int key accumulator of the emitted loop against the byte accumulator of the
+   generator: the state machine terminates and returns the data *)
+Theorem C05_split_roundtrip : forall (n : nat) (idx : list N) (ps : list piece) (o : bop) (key0 : N)
+    (cs : list (N * scase)) (data : bytes),
+  length idx = S (S n) -> NoDup idx -> length ps = n -> key0 < 256 -> okb data ->
+  length cs = S n -> NoDup (map fst cs) ->
+  (forall k, (k < n)%nat -> In (nth k idx 0, CChunk (nth (S k) idx 0) (nth k ps (PAtom (0, None)))) cs) ->
+  In (nth n idx 0, CDecrypt (nth (S n) idx 0) (inv o)) cs ->
+  concat (map run_piece ps) = encrypt_from 0 o (split_key_from 0 (firstn (S n) idx) key0) data ->
+  run_split (nth 0 idx 0) (nth (S n) idx 0) (key0, None) cs = Some data.
+Proof. exact split_roundtrip. Qed.
+
+(* non-vacuity: a one-chunk instance meets the hypotheses *)
 Example C05_split_instance :
   run_split 1 0 (5, None)
     [(1, CChunk 2 (PAtom (ap Add 65 ((N.lxor (N.lxor (N.lxor 5 (1*0)) (2*1)) 0) mod 256), None)));
@@ -66,6 +77,7 @@ Print Assumptions C05_simple_roundtrip.
 Print Assumptions C05_swap_roundtrip.
 Print Assumptions C05_seed_roundtrip.
 Print Assumptions C05_shuffle_roundtrip.
+Print Assumptions C05_split_roundtrip.
 Print Assumptions C05_wrap_roundtrip.
 Print Assumptions C05_array_roundtrip.
 Print Assumptions C05_consts.
